@@ -12,7 +12,9 @@ Checks ==
   LET h == Header(R.hdr, R.ver)
       g == R.got
       c1 == IF g.ver # R.ver THEN <<V("C06.version", R.ver, g.ver)>> ELSE <<>>
-      c2 == IF g.magic # R.magic THEN <<V("C06.magic", R.magic, g.magic)>> ELSE <<>>
+      \* named deviation (load.py "PyPy 3.2 stores a magic of '0'"): the file magic 48 is reported as 3187, the regular PyPy 3.2 magic
+      wantmagic == IF R.magic = 48 THEN 3187 ELSE R.magic
+      c2 == IF g.magic # wantmagic THEN <<V("C06.magic", wantmagic, g.magic)>> ELSE <<>>
       c3 == IF g.ts # h.ts THEN <<V("C06.timestamp", h.ts, g.ts)>> ELSE <<>>
       c4 == IF g.size # h.size THEN <<V("C06.source_size", h.size, g.size)>> ELSE <<>>
       c5 == IF g.hash # h.hash THEN <<V("C06.sip_hash", h.hash, g.hash)>> ELSE <<>>
